@@ -126,7 +126,7 @@ def run(ctx):
     # parsing chain: split on '\n', base64 STANDARD decode, Share::from_bytes
     dec = [e for e in Q.calls(eng, "base64::Engine::decode")]
     fb = [e for e in Q.calls(eng, "sta_rs::Share::from_bytes")]
-    sp = [e for e in Q.calls(eng, "::split")]
+    sp = [e for e in Q.calls(eng, "str>::split") if not (e.get("callee") or "").endswith("split_at")]
     okp = len(dec) == 1 and len(fb) == 1 and len(sp) == 1 and "general_purpose::STANDARD" in S(dec[0]["argv"][0], 3) and \
         fb[0]["argv"][0].op == "b64dec" and Q.params(Q.leaves(dec[0]["argv"][1])) == {"serialized_shares"} and \
         Q.contains(sp[0]["args"][1], lambda t: t.op == "int" and t.args[0] == 10)
